@@ -55,7 +55,7 @@ type c20Case struct {
 	// positive, 1 exact zeros scattered (one directly followed by a non-zero weight), 2 zero at
 	// the first and at the last position (unweighted entries ignore the weights)
 	Samp int `json:"samp"`
-	Sp   int    `json:"sp,omitempty"` // 1: the float data contain NaN, +Inf, -Inf, -0, the largest and the smallest positive double; 2: the same without NaN
+	Sp   int `json:"sp,omitempty"` // 1: the float data contain NaN, +Inf, -Inf, -0, the largest and the smallest positive double; 2: the same without NaN
 }
 
 // which special-values flavour an entry is run with (in addition to its ordinary cases).
@@ -113,6 +113,7 @@ func ib(xs []int) []uint64 {
 	}
 	return r
 }
+
 // snapshots cover the WHOLE backing array (up to cap), so a write into the spare capacity of
 // an argument (e.g. an append that does not reallocate) is seen as well; the length is
 // part of the snapshot
@@ -223,7 +224,7 @@ func snapI(p *[]int) func() []uint64 {
 	})
 	return func() []uint64 { return append([]uint64{uint64(len(*p))}, ib(wholeI(*p))...) }
 }
-func snapNone() []uint64                 { return nil }
+func snapNone() []uint64 { return nil }
 func flatG(g graph.IntGraph) []uint64 {
 	var r []uint64
 	for _, o := range g {
@@ -319,6 +320,7 @@ func c20Weights(rng *rand.Rand, n int) []float64 {
 	}
 	return houseF(rng, ws)
 }
+
 // high-degree structure (shapes 1 and 2; the requested size is only a lower bound there)
 func c20HubGraph(rng *rand.Rand, n int) graph.IntGraph {
 	N := 130 + rng.Intn(40)
@@ -475,9 +477,9 @@ type identHist struct {
 	bins        []uint
 }
 
-func (h *identHist) Add(float64)                        {}
-func (h *identHist) Counts() (uint, []uint, uint)       { return h.under, h.bins, h.over }
-func (h *identHist) BinToValue(b float64) float64       { return b }
+func (h *identHist) Add(float64)                  {}
+func (h *identHist) Counts() (uint, []uint, uint) { return h.under, h.bins, h.over }
+func (h *identHist) BinToValue(b float64) float64 { return b }
 func statsRes(r *stats.TTestResult, err error) []uint64 {
 	if err != nil {
 		return []uint64{errBits(err)}
@@ -855,7 +857,9 @@ func init() {
 					m, lo, hi := s.MeanCI(conf)
 					r = append(r, math.Float64bits(m), math.Float64bits(lo), math.Float64bits(hi))
 				})
-				try(func() { r = append(r, math.Float64bits(s.Quantile(0.5)), math.Float64bits(s.Quantile(0.999)), math.Float64bits(s.IQR())) })
+				try(func() {
+					r = append(r, math.Float64bits(s.Quantile(0.5)), math.Float64bits(s.Quantile(0.999)), math.Float64bits(s.IQR()))
+				})
 				try(func() {
 					c := s.Copy()
 					r = append(r, fb(c.Xs)...)
